@@ -1,0 +1,77 @@
+//go:build verif
+
+package preprocess
+
+import (
+	"os"
+	"strings"
+	"sync"
+
+	"github.com/angelsolaorbaiceta/inkfem/contracts"
+)
+
+// Verification hook (build tag verif): imposes a completion order on the goroutines
+// that slice the bars. When VERIF_SLICE_ORDER="id3,id1,..." is set, the goroutine of a
+// listed bar blocks until every bar listed before it has sent its result; bars which
+// aren't listed pass freely.
+var verifSlice = struct {
+	sync.Mutex
+	cond  *sync.Cond
+	order []string
+	next  int
+}{}
+
+func init() {
+	verifSlice.cond = sync.NewCond(&verifSlice.Mutex)
+}
+
+// VerifResetSliceOrder reads the imposed order again (used by in-process harnesses
+// that preprocess more than one structure).
+func VerifResetSliceOrder() {
+	verifSlice.Lock()
+	defer verifSlice.Unlock()
+
+	verifSlice.order = nil
+	verifSlice.next = 0
+	if value := os.Getenv("VERIF_SLICE_ORDER"); value != "" {
+		verifSlice.order = strings.Split(value, ",")
+	}
+}
+
+// verifSliceGate blocks until it's the turn of the bar with the given id and returns
+// the function to call once the bar's result has been sent.
+func verifSliceGate(id contracts.StrID) func() {
+	verifSlice.Lock()
+	defer verifSlice.Unlock()
+
+	if verifSlice.order == nil && verifSlice.next == 0 {
+		if value := os.Getenv("VERIF_SLICE_ORDER"); value != "" {
+			verifSlice.order = strings.Split(value, ",")
+		}
+	}
+
+	position := -1
+	for i, listed := range verifSlice.order {
+		if listed == id {
+			position = i
+			break
+		}
+	}
+	if position < 0 {
+		return func() {}
+	}
+
+	for verifSlice.next < position {
+		verifSlice.cond.Wait()
+	}
+
+	return func() {
+		verifSlice.Lock()
+		defer verifSlice.Unlock()
+
+		if verifSlice.next == position {
+			verifSlice.next++
+		}
+		verifSlice.cond.Broadcast()
+	}
+}
